@@ -100,7 +100,11 @@ def lex(text):
             continue
         m = _INT.match(text, i)
         if m:
-            toks.append(Tok("INT", int(m.group(0)), m.group(0), i, line, col))
+            try:
+                v = int(m.group(0))
+            except ValueError:  # beyond Python's digit limit for int(): a lexical error of the text
+                raise LexFailure(i, line, col, "integer literal too long")
+            toks.append(Tok("INT", v, m.group(0), i, line, col))
             i = m.end()
             continue
         m = _BININT.match(text, i)
